@@ -174,7 +174,7 @@ CORPUS = [
     "ins ; @m3 0>100:2",
     "ins opt=noextpitch ; @m3 0>100:2",
     "ins ; @m5 0>3:510 ; @m6 0>1:510 ; @m7 127>0:1000 ; @m8 127 ; @m9 0>12",
-    # 2op: the base must be an FM instrument (fix 85bdeee: a PSG base was copied as if it were 30 bytes) —
+    # 2op: the base must be an FM instrument (fix 45b84a6: a PSG base was copied as if it were 30 bytes) —
     # psg, the predefined instrument 0 (type undefined), missing, itself, an fm, another 2op, an fm redefined as psg
     "ins ; @1 psg 15 ; @24 2op 1 1 1 1 1 0",
     "ins ; @1 psg 15 ; @2 2op 1 1 1 1 1 0",
@@ -185,22 +185,22 @@ CORPUS = [
     "ins ; @1 fm " + " ".join(FM2) + " ; @01 psg 15 14 ; @2 2op 1 5 5 4 4 0",
     "ins ; @1 fm " + " ".join(FM2) + " ; @01 psg ; @2 2op 1 5 5 4 4 0",
     "ins ; @1 fm " + " ".join(FM2) + " ; @2 2op 257 5 5 4 4 0 ; @3 2op 513 1 1 1 1 1",
-    # an instrument definition without a type (fix 7061cba: tag.begin() of an empty tag was dereferenced)
+    # an instrument definition without a type (fix 696884e: tag.begin() of an empty tag was dereferenced)
     "ins ; @1",
     "ins ; @1 ; @2 psg 15",
     "ins ; @2 psg 15 ; @1 ; @3 psg 14",
     "insmml " + "@1 ;comment\n".encode().hex(),
     "insmml " + "@1\n@2 psg 15\n".encode().hex(),
     "insmml " + "@1 ;c\n\tpsg 15\n".encode().hex(),
-    # FM transpose near LONG_MAX (fix a2025de: (strtol + 24) * 2 overflowed a long; strtol saturates)
+    # FM transpose near LONG_MAX (fix 4b9aa87: (strtol + 24) * 2 overflowed a long; strtol saturates)
     "ins ; @1 fm " + " ".join(FM1) + " 9223372036854775807",
     "ins ; @1 fm " + " ".join(FM1) + " 9223372036854775795",
     "ins ; @1 fm " + " ".join(FM1) + " 99999999999999999999",
     "ins ; @1 fm " + " ".join(FM1) + " -9223372036854775808",
     "ins ; @1 fm " + " ".join(FM1) + " -99999999999999999999",
     "ins ; @1 fm " + " ".join(FM1) + " 4611686018427387904",
-    # vibrato rate of 2^30 or more (fix 584f89a: vibrato_rate*2 overflowed an int) and the 256-node limit
-    # (fix c469126: these were split into millions of nodes)
+    # vibrato rate of 2^30 or more (fix a95256a: vibrato_rate*2 overflowed an int) and the 256-node limit
+    # (fix 54bd60e: these were split into millions of nodes)
     "ins ; @m1 V0:1:1073741824",
     "insmml " + "@M1 V0:1:1073741824\n".encode().hex(),
     "insmml " + "@M1 V0:1:99999999\n".encode().hex(),
@@ -233,8 +233,8 @@ CORPUS = [
     # the compact form throws invalid_argument at the 257th node before it would be too long: the extended pass reports it
     "ins ; @m1 " + " ".join(["0"] * 256) + " 0>100:2",
     "ins ; @m1 " + " ".join(["0"] * 255) + " 0>100:2",
-    # loop position 256 = 256 nodes, then the mark (or a vibrato macro that adds no node): wrapped to 00 after c469126,
-    # an InputError since 3ecca73; 255 nodes then the mark is position 255 and is accepted
+    # loop position 256 = 256 nodes, then the mark (or a vibrato macro that adds no node): wrapped to 00 after 54bd60e,
+    # an InputError since 1772c47; 255 nodes then the mark is position 255 and is accepted
     "ins ; @m1 " + " ".join(["0", "1"] * 128) + " |",
     "ins ; @m1 " + " ".join(["0", "1"] * 127) + " 0 |",
     "ins ; @m1 " + " ".join(["0", "1"] * 128) + " V0:1:-5",
@@ -252,7 +252,7 @@ CORPUS = [
     "ins ; @m1 0>1:65281 ; @1 psg 15",
     # float vs exact-rational difference in a PSG slide (frame 3 is 0 in binary64, 1 in exact arithmetic)
     "ins ; @10 psg 0>1:7",
-    # PSG loop position above 255 is emitted as one byte (wraps); the pitch twins are an InputError since c469126
+    # PSG loop position above 255 is emitted as one byte (wraps); the pitch twins are an InputError since 54bd60e
     "ins ; @1 psg " + " ".join(["15", "14"] * 130) + " | 3 2",
     "ins ; @m1 " + " ".join(["0", "1"] * 130) + " | 3 2",
     "ins ; @m1 " + " ".join(["0>100:2", "1"] * 130) + " 0>1:5",
@@ -311,7 +311,7 @@ def ref2op_family(rng, tier):
 
 
 def limit_family(rng, tier):
-    """pitch envelopes of 254..258 nodes: add_pitch_node rejects the 257th (fix c469126)"""
+    """pitch envelopes of 254..258 nodes: add_pitch_node rejects the 257th (fix 54bd60e)"""
     counts = [254, 255, 256, 257, 258]
     for n in counts:
         for form in ["singles", "long", "two-long", "extended", "noext-capped", "late-extended", "loop-first", "loop-mid", "loop-end",
